@@ -275,6 +275,36 @@ class Handles:
                              "a single element is read at %s instead of the cursor position" % fmt(a[1])[:50], t.line)
         return n
 
+    def handle_surface_rules(self, rep, rule):
+        """the in-memory handles implement only the required methods of their I/O traits (everything else — read_to_end,
+        read_exact, write_all, … — is derived by the trait from those, so the rules on read / seek / write / flush decide it
+        too), and a read handle is a private snapshot: it holds no reference to the shared filesystem state"""
+        n = 0
+        required = {"Read": {"read"}, "Seek": {"seek"}, "Write": {"write", "flush"},
+                    "AsyncRead": {"poll_read"}, "AsyncSeek": {"poll_seek"}, "AsyncWrite": {"poll_write", "poll_flush", "poll_close"},
+                    "Drop": {"drop"}}
+        for ty in (self.reader, self.writer):
+            if not ty:
+                continue
+            for imp in self.facts.impls:
+                if imp["self_ty"] != ty or not imp["trait"] or imp.get("derived"):
+                    continue
+                tname = imp["trait"].split("::")[-1].split("<")[0]
+                if tname not in required:
+                    continue
+                extra = sorted({m["name"] for m in imp["methods"]} - required[tname])
+                n += 1
+                rep.ob(rule, ty, "%s for %s overrides only the required methods" % (tname, ty.split("::")[-1]), not extra,
+                       "" if not extra else "%s::%s is overridden on the in-memory handle: a second, hand-written data path next to the "
+                       "one the cursor rules decide (its cursor arithmetic is not covered by them)" % (tname, extra[0]), imp["span"])
+        if self.reader:
+            shared = [f["name"] for f in adt_fields(self.facts, self.reader) if "RwLock" in f["ty"] or "Mutex" in f["ty"]]
+            n += 1
+            rep.ob(rule, self.reader, "the read handle holds no reference to the shared filesystem state", not shared,
+                   "" if not shared else "the reader keeps %s: what it returns can change while it is being read (bytes of two "
+                   "versions of the file in one read_to_end)" % shared, "")
+        return n
+
     def flush_publishes(self, rep, rule):
         """async writer: poll_flush must reach the map insertion (the sync writer publishes in flush); R15.5"""
         n = 0
